@@ -196,7 +196,7 @@ theorem mutual_frame (rank : SlabID → Nat) (fuel : Nat) :
         · cases h; exact hsame
         · simp only at h
           split at h
-          · cases h
+          · cases h; exact hnf
           · rename_i pa hpa
             split at h
             · cases h; exact hnf
